@@ -10,9 +10,18 @@ ALL = [f"C{i:02d}" for i in range(1, 20)]
 
 # id -> (engine, category, level text, level note, technique, design_ref)
 CHECKS = {
+ "C06": ("L2 network simulation", "exploration",
+   "The real client syncs a generated chain and GetBlock is called (sequential, concurrent, repeated, both encodings) while peers answer getdata(block) from a 29-kind vocabulary (honest, other block, nothing, garbage, and the requested header with mutated / added / removed / duplicated (CVE-2012-2459) / reordered transactions, stripped / forged witnesses, altered commitment ...); every message sent is labelled from its own bytes; returned blocks and every BlockCache entry must be byte-identical to the generator's block, senders of invalid blocks with the requested header must carry an InvalidBlock ban in the reopened ban store and no innocent peer may, banned addresses end without an open connection, and calls succeed when the true block was delivered.",
+   "Ban attribution only when the event log shows the response reached an active call; BaseEncoding requests for witness blocks are labelled ambiguous and only counted.",
+   "runtime monitoring: byte-level comparison of returned/cached blocks + ban-store attribution oracle over scripted block responses", "5/C06"),
+ "C18": ("race detector", "other",
+   "The workloads of the other checks (network simulations with 9 extra goroutines hammering every public getter, and the concurrent component drivers) are rebuilt with `go build -race` and run with GORACE log files; report blocks with a client frame in either stack are violations, deduplicated by the pair of first client frames; a report entirely inside harness code fails the run as a broken harness.",
+   "Happens-before race detection is sound for what it reports and silent about paths and interleavings the workloads did not execute; third-party-only reports are counted, not charged.",
+   "Go race detector (-race) over race-instrumented simulation and component workloads, log parsing and dedup", "5/C18"),
+
  "C04": ("L2 network simulation", "exploration",
    "The complete real ChainService (connmgr, btcd peers, block manager, work manager, stores on disk) runs against scripted wire peers: one honest peer plus stale / lighter-fork / invalid-header / filter-liar / silent / garbage / flapping / no-CF / no-witness / slow peers in random or forced connection order; the honest chain keeps growing and reorganises. SAFETY is checked at every 3 ms sample (reported best block is on a fully valid generated chain), BOUNDED PROGRESS per phase (a miss is a violation only if the client's state was stable for the last third of a deadline derived from the protocol timers, else inconclusive), and the stores are re-validated at the end.",
-   "Schedule-dependent (which peer becomes sync peer); deadlines are derived from btcd's stall timeout and the worker timeouts; one child process per scenario. Known finding listed: exhausted sync peer below the last checkpoint.",
+   "Schedule-dependent (which peer becomes sync peer); deadlines are derived from btcd's stall timeout and the worker timeouts; one child process per scenario. one child process per scenario.",
    "runtime monitoring: sampled public-API safety oracle + bounded-progress oracle over a scripted hostile network", "5/C04"),
  "C08": ("crash runner", "fault_enumeration",
    "Seeded scripts of appends / filter batches / rollbacks / reorganisation composites run on the real stores; EVERY crash point of every primitive (before/after each flat-file write, five torn lengths inside each write, after each truncate, after each index commit) yields a crash image that is opened like a restarting client and must open, hold exactly the before- or after-state in each store, have whole-record files agreeing with the tips, consistent by-hash lookups, filter tip <= block tip, and accept appends at the right heights. A sample of the same points is re-done with a real SIGKILL of a child process; the thorough tier adds SIGKILLs at random instants.",
@@ -102,7 +111,7 @@ def main():
         "engines": [
             {"name": "L1 block-manager driver", "path": "harness/internal/l1", "serves_properties": ["C01", "C02", "C03", "C19"],
              "kind_free_text": "real blockManager + real headerfs stores, scripted network, synchronous message-at-a-time driving, store read-back after every step"},
-            {"name": "L2 network simulation", "path": "harness/internal/l2", "serves_properties": ["C03", "C04"],
+            {"name": "L2 network simulation", "path": "harness/internal/l2", "serves_properties": ["C03", "C04", "C06", "C18"],
              "kind_free_text": "the complete real ChainService through its public API against scripted wire peers reached through Config.Dialer; one child process per scenario"},
             {"name": "crash runner", "path": "harness/internal/c08", "serves_properties": ["C08"],
              "kind_free_text": "crash images at every File/DB boundary point and real SIGKILL of child processes, recovery oracle on reopen"},
